@@ -10,6 +10,7 @@ failure on a program go accepts is a violation (class compile-failure).  Fixed p
 """
 import os
 import re
+import shutil
 import sys
 import time
 
@@ -24,7 +25,7 @@ w = chk.work
 QUICK = chk.tier == "quick"
 NPROG = int(os.environ.get("VERIF_C01_PROGS", "40" if QUICK else "1200"))
 NUNITS = int(os.environ.get("VERIF_C01_UNITS", "25"))
-WORKERS = min(core.NCPU, int(os.environ.get("VERIF_C01_WORKERS", "6")))
+WORKERS = min(core.NCPU, int(os.environ.get("VERIF_C01_WORKERS", "6" if QUICK else "8")))
 KINDS = os.environ.get("VERIF_C01_KINDS")
 KINDS = KINDS.split(",") if KINDS else None
 CONFIGS = [("gc", None), ("nogc", "nogc")]
@@ -41,6 +42,8 @@ t_llgo = time.time() - t0
 
 OPEN = {f["id"] for f in chk.open_findings()}
 AVOID = tuple(sorted(a for a in gen.AVOIDABLE if gen.AVOIDABLE[a] in OPEN))
+if os.environ.get("VERIF_C01_NOAVOID"):       # fix validation: generate the avoided constructs too (used with VERIF_REPO=<tree with the fixes>)
+    AVOID = ()
 
 
 # ---------------------------------------------------------------------------------------------- helpers
@@ -55,7 +58,9 @@ def norm_panic_line(err):
         if ln.startswith("panic: ") or ln.startswith("fatal error: "):
             s = ln.strip()
             s = re.sub(r"\s*\[recovered\].*$", "", s)
-            if "runtime error" in s or "interface conversion" in s:
+            if "interface conversion" in s or "type assertion" in s:
+                return "panic-class:typeassert"
+            if "runtime error" in s:
                 return "panic-class:" + core.panic_class(s)
             s = re.sub(r"^panic: main\.", "panic: ", s)
             return s
@@ -220,6 +225,14 @@ def do_program(idx):
             res["bad"].append((name, tags, bad))
     res["obs"] = obs if res["bad"] else None
     res["wall"] = time.time() - t
+    if not res["bad"] and not os.environ.get("VERIF_KEEP_WORK"):
+        shutil.rmtree(d, ignore_errors=True)
+    if not res["bad"]:
+        # keep memory flat over 1200 programs: sources are a pure function of (seed, idx) and are regenerated on demand
+        if idx < 2 and p["units"]:
+            m = p["units"][0]
+            res["sample"] = p["files"][[k for k in p["files"] if k.endswith("_u%d.go" % m["uid"])][0]][:600]
+        res["p"] = {k: p[k] for k in ("units", "npk", "term", "mod", "needs_go126")}
     return res
 
 
@@ -287,10 +300,10 @@ for res in results:
         units_done += 1
         by_kind[m["kind"]] = by_kind.get(m["kind"], 0) + 1
         chk.sig(m["sig"] + "|" + ("split" if m["lib_pkg"] != m["body_pkg"] else "same"))
-    if len(chk.cov["samples"]) < 2 and p["units"]:
+    if len(chk.cov["samples"]) < 2 and p["units"] and res.get("sample"):
         m = p["units"][0]
         chk.sample({"program": res["idx"], "npk": p["npk"], "unit": m["uid"], "kind": m["kind"], "signature": m["sig"],
-                    "source_head": p["files"][[k for k in p["files"] if k.endswith("_u%d.go" % m["uid"])][0]][:600]})
+                    "source_head": res["sample"]})
     seen = set()
     for name, tags, bad in res["bad"]:
         for uid, desc in bad:
